@@ -26,10 +26,10 @@ class C19(Check):
     def regen(self, harness):
         return gen.regen(harness, {"DriverSkel.v", "MainWiring.v"})
 
-    def model_predictions(self, counts, nrep, faults):
+    def model_predictions(self, counts, nrep, faults, golden=False):
         cfg = "[" + ";".join('("%s",%d%%Z)' % (k, v) for k, v in zip(COUNT_KEYS, counts)) + "]"
         fl = ";".join("(%d,%s,%d)" % (f[0], "true" if f[1] == "close" else "false", f[2]) for f in faults)
-        txt = ("From Coq Require Import List String Bool Arith ZArith.\nRequire Import DriverTypes Driver DriverConv DriverSkel MainWiring.\n"
+        txt = ("From Coq Require Import List String Bool Arith ZArith.\nRequire Import DriverTypes Driver DriverConv %s MainWiring.\n"
                "Import ListNotations. Open Scope string_scope.\n"
                "Definition conv := conversation_of driver_skeletons wiring_mode2 %s.\n"
                "Definition nrep := [%s]%%nat.\n"
@@ -38,7 +38,7 @@ class C19(Check):
                "  code (run (if cl then FClose j q else FGarbage j q) conv pst0 0).\n"
                "Definition rd (f:nat * bool * nat) : nat := let '(j, cl, i) := f in if is_read conv j (queued_before conv nrep j + i) then 1 else 0.\n"
                "Definition pred := Eval vm_compute in (count_w conv, map one [%s], map rd [%s]).\nPrint pred.\n"
-               % (cfg, ";".join(str(x) for x in nrep), fl, fl))
+               % ("DriverSkelGolden" if golden else "DriverSkel", cfg, ";".join(str(x) for x in nrep), fl, fl))
         rc, out = C.coq_eval(txt)
         flat = " ".join(out.split())
         m = re.search(r"pred = \((\d+), \[([^\]]*)\], \[([^\]]*)\]\)", flat)
@@ -83,6 +83,16 @@ class C19(Check):
                 faults.append((j, "garbage", i, "text" if (j + i) % 2 == 0 else "padbits"))
                 faults.append((j, "garbage", i, "inner"))
         n_model, preds, reads = self.model_predictions(counts, nrep, faults)
+        if getattr(self, "search_mode", False):
+            # a proof obligation over the regenerated skeleton broke: the positions of the emulator's reads are taken from the
+            # frozen skeleton of the unchanged tree (Spec/DriverSkelGolden.v), not from one that may reflect the change
+            try:
+                C.coq_make(["Spec/DriverSkelGolden.vo"])
+                _, _, reads_g = self.model_predictions(counts, nrep, faults, golden=True)
+                if len(reads_g) == len(reads):
+                    reads = [max(a, b) for a, b in zip(reads, reads_g)]
+            except Exception as e:
+                C.log("C19: frozen skeleton unavailable: %s" % e)
         if n_model != n_up:
             self.violation({"theorem_or_stream": "correspondence: driver skeleton vs process", "input": {"counts": counts},
                             "observed": {"uplink_messages": n_up}, "expected": {"count_w": n_model},
